@@ -28,6 +28,8 @@ def c01_class(case, obs):
             "echo": case.get("echo", "?"), "spec_ok": str(case.get("spec") == "1507")}
 
 def c02_class(case, obs):
+    if case.get("kind") == "net":
+        return {"len": "net", "from_slice": "-", "read": obs.get("net", obs.get("crash", "?")).split(":")[0], "decode": "net:" + case.get("target", "?")}
     b = case.get("bytes", "-")
     n = 0 if b == "-" else len(b) // 2
     return {"len": _len_class(n), "from_slice": _prefix(obs.get("fs", obs.get("crash"))),
@@ -231,7 +233,7 @@ PROPS = {
         "classify": c02_class,
         # non-trivial: at least a full header with the right magic (gets past the first two checks)
         "nontrivial": lambda cls: cls["decode"] != "err:hlen" and cls["decode"] != "err:spec",
-        "rule": "cases = exhaustive 14^3 product of boundary classes of the three length fields x 3 buffer lengths, wrapping sums, valid frames with every truncation point and structured mutations, random byte strings <=4 KiB; distinct = distinct byte string; non-trivial = >=48 bytes with the REPE magic (reaches the length arithmetic)",
+        "rule": "cases = exhaustive 14^3 product of boundary classes of the three length fields x 3 buffer lengths, wrapping sums, valid frames with every truncation point and structured mutations, random byte strings <=4 KiB; plus 10 hostile headers (wrapping sums, 2^62, 2^63, u64::MAX, bad magic, truncated) sent over real sockets to the blocking, async and WebSocket servers and, as replies from a fake server, to the three clients: the endpoint must survive, fail that connection and keep serving; distinct = distinct byte string; non-trivial = >=48 bytes with the REPE magic (reaches the length arithmetic)",
         "timeout_s": {"quick": 600, "thorough": 3000},
     },
     "C11": {
